@@ -28,7 +28,7 @@ def floors(tier):
 def plan(tier, seed):
     rng = random.Random(f'C01-plan-{seed}')
     if tier == 'quick':
-        cfgs = gen.standard_configs(rng, tier, dmax_pqr=5, dmax_sig=4, n_custom=90)
+        cfgs = gen.standard_configs(rng, tier, dmax_pqr=5, dmax_sig=4, n_custom=300, custom_dims=(3, 4, 4, 5))
         lazy = [{'signature': gen.random_sig(rng, 7)}, {'p': 4, 'q': 3, 'r': 1}]
         lazy += [gen.random_custom_cfg(rng, 7)]
         nshards = 16
